@@ -242,10 +242,19 @@ Proof.
     destruct p, q; try discriminate Hm; destruct r; try discriminate Hm;
       vm_compute in Hm; injection Hm as <-;
       destruct T; try discriminate Hv; vm_compute; reflexivity.
-  - destruct p, q; try discriminate Hm;
+  - destruct q;
+      try (destruct p; try discriminate Hm;
+           unfold matched_total in Hm; cbn [c_ngc cfg_src] in Hm;
+           destruct (sweeps r) eqn:Hs; try discriminate Hm; injection Hm as <-;
+           rewrite frees_cons;
+           destruct T; try discriminate Hv;
+           (rewrite sweeps_release_nothing; [vm_compute; reflexivity | exact Hs | vm_compute; discriminate])).
+    (* del while stopped: nothing now, released by the sweep that follows, never again *)
+    destruct p; try discriminate Hm;
       unfold matched_total in Hm; cbn [c_ngc cfg_src] in Hm;
-      destruct (sweeps r) eqn:Hs; try discriminate Hm; injection Hm as <-;
-      rewrite frees_cons;
+      destruct r as [|q2 r2]; try discriminate Hm; destruct q2; try discriminate Hm;
+      destruct (sweeps r2) eqn:Hs; try discriminate Hm; injection Hm as <-;
+      rewrite frees_cons; rewrite frees_cons;
       destruct T; try discriminate Hv;
       (rewrite sweeps_release_nothing; [vm_compute; reflexivity | exact Hs | vm_compute; discriminate]).
 Qed.
